@@ -84,27 +84,41 @@ def norm_line(line):
     return cid, "%s T:%s R:%s E:%s" % (status, t, r, e)
 
 
+def oracle_arg(a):
+    """integers travel to the oracle in hexadecimal (exact at any size)"""
+    if a[0] == "i":
+        z = int(a[1:])
+        return "I" + (("-%x" % -z) if z < 0 else ("%x" % z))
+    return a
+
+
 def make_lines(cases):
     """render + serialise every case; returns (go_lines, oracle_lines, sources)"""
     go, orc, srcs = [], [], []
     for i, c in enumerate(cases):
-        rng = vlib.SplitMix64(c.get("rseed", 1))
-        src = gen_lua.render(c["ast"], c.get("style", 0), rng)
-        sx = gen_lua.serialize(c["ast"])
+        if "src" in c:
+            src, sx = c["src"], c["sx"]          # stored case (corpus / replay)
+        else:
+            rng = vlib.SplitMix64(c.get("rseed", 1))
+            src = gen_lua.render(c["ast"], c.get("style", 0), rng)
+            sx = gen_lua.serialize(c["ast"])
+        c["_src"], c["_sx"] = src, sx
         args = ",".join(c.get("args") or []) or "-"
+        oargs = ",".join(oracle_arg(a) for a in (c.get("args") or [])) or "-"
         cid = "p%d" % i
         go.append("%s %s args=%s" % (cid, src.encode("latin1").hex(), args))
-        orc.append("%s %d %s %s" % (cid, c.get("fuel", FUEL_EXP), args, sx))
+        orc.append("%s %d %s %s" % (cid, c.get("fuel", FUEL_EXP), oargs, sx))
         srcs.append(src)
     return go, orc, srcs
 
 
-def run_both(ck, cases, gvh=None, oracle=None, want_sources=False):
+def run_both(ck, cases, gvh=None, oracle=None, want_sources=False, timeout=None):
     gvh = gvh or ck.build_gvh()[0]
     oracle = oracle or ck.build_oracle("luacore")
     go, orc, srcs = make_lines(cases)
-    out_go = vlib.run_lines_resilient(gvh, ["lua"], go, per_case_timeout=10)
-    rc, out_or, err = vlib.run_lines(oracle, [], orc, timeout=3000)
+    out_go = vlib.run_lines_resilient(gvh, ["lua"], go, per_case_timeout=timeout or 10)
+    out_or = vlib.run_lines_resilient(oracle, [], orc, per_case_timeout=timeout or 30)
+    err = ""
     gmap = dict(norm_line(l) for l in out_go if l)
     omap = dict(norm_line(l) for l in out_or if l)
     res = []
